@@ -1,17 +1,30 @@
 package lsp
 
-// Overlay test for C05 (never added to /repo): drives the two language server call sites of the
-// ignore matcher, LanguageServer.ignoreURI (workspace *path* as prefix, one file) and
-// LanguageServer.getFilteredModules (workspace *URI* as prefix, all cached modules), on the cases
-// listed in $VERIF_C05_IN and writes what they returned, together with gobwas/glob's own answers
-// for every candidate expansion (the oracle table), to $VERIF_C05_OUT.
+// Overlay test for C05 (never added to /repo): drives the language server's use of the ignore matcher on the
+// cases listed in $VERIF_C05_IN and writes what it did to $VERIF_C05_OUT.
+//
+//	call sites (kind "site"): LanguageServer.ignoreURI (one URI, workspace path as prefix) and
+//	    LanguageServer.getFilteredModules (all cached modules), uri.ToPath of every URI and of the root;
+//	documents (kind "diag"): textDocument/didOpen for every URI, then parse + updateAllDiagnostics the way the
+//	    diagnostics worker does it: which URIs are among the files to lint / among the ignored files / get diagnostics;
+//	workspace loading (kind "load"): a real tree below $work, loadWorkspaceContents (rio.WalkFiles + uri.FromPath +
+//	    ignoreURI), then updateAllDiagnostics.
+//
+// URIs are percent-encoded (the test is given them as a client would send them), ignore patterns are written against
+// plain root-relative paths.  Independent of regal's uri package the test also asks the matcher itself
+// (config.FilterIgnoredPaths without prefix, as on the command line) about the plain root-relative path of every
+// URI ("rels", computed by the caller with RFC 3986 decoding): the reference the predicate compares with.
+// gobwas/glob's own answers for every candidate expansion (the oracle table of the Coq model) are added.
 
 import (
 	"context"
 	"encoding/json"
+	"fmt"
 	"os"
+	"path/filepath"
 	"sort"
 	"strings"
+	"sync"
 	"testing"
 
 	"github.com/gobwas/glob"
@@ -19,6 +32,8 @@ import (
 	"github.com/open-policy-agent/opa/v1/ast"
 
 	"github.com/styrainc/regal/internal/lsp/clients"
+	"github.com/styrainc/regal/internal/lsp/rego"
+	"github.com/styrainc/regal/internal/lsp/types"
 	"github.com/styrainc/regal/internal/lsp/uri"
 	"github.com/styrainc/regal/pkg/config"
 )
@@ -44,43 +59,199 @@ func c05Closure(p string) []string {
 	return res
 }
 
-func TestVerifC05(t *testing.T) {
-	inPath, outPath := os.Getenv("VERIF_C05_IN"), os.Getenv("VERIF_C05_OUT")
-	if inPath == "" {
-		t.Skip("no input")
+type c05Case struct {
+	Kind       string   `json:"kind"`   // site | diag | load
+	Root       string   `json:"root"`   // workspace root URI (load: set by the test from root_dir)
+	Client     string   `json:"client"` // generic | vscode
+	URIs       []string `json:"uris"`
+	Rels       []string `json:"rels"` // plain root-relative path of every URI ("" = not below the root)
+	Ignore     []string `json:"ignore"`
+	RuleIgnore []string `json:"rule_ignore"` // ignore.files of style/prefer-snake-case (diag, load)
+	RootDir    []string `json:"root_dir"`    // load: directory names below the work directory, the last one is the root
+	Files      []string `json:"files"`       // load: files to create, relative to the root
+	// observed
+	Panic     string     `json:"panic"`      // the glob engine itself crashed on some expansion: nothing else was run
+	RootPath  string     `json:"root_path"`  // workspacePath()
+	Paths     []string   `json:"paths"`      // uri.ToPath(client, uri)
+	Ignored   []bool     `json:"ignored"`    // site: ignoreURI(uri); diag/load: not among the files to lint
+	Modules   []string   `json:"modules"`    // keys of getFilteredModules(), sorted
+	ModulesOK bool       `json:"modules_ok"` // ... returned no error
+	Direct    []string   `json:"direct"`     // config.FilterIgnoredPaths(paths, ignore, false, workspacePath())
+	DirectOK  bool       `json:"direct_ok"`
+	RelKept   []int      `json:"rel_kept"`      // per URI: FilterIgnoredPaths([rel], ignore, false, "") 1 kept, 0 dropped, -1 error, -2 no rel
+	RelRule   []int      `json:"rel_rule_kept"` // same with the rule's list
+	EncKept   []int      `json:"enc_kept"`      // the same two questions about the ENCODED text of the URI behind the root URI
+	EncRule   []int      `json:"enc_rule_kept"` // (what a matcher that only trims the prefix is handed; classification of the open finding)
+	InIgnored []bool     `json:"in_ignored"`    // diag/load: among the ignored files of the cache
+	Diags     [][]string `json:"diags"`         // diag/load: diagnostic codes per URI, sorted
+	Loaded    []string   `json:"loaded"`        // load: every URI among the files to lint, sorted
+	Err       string     `json:"err"`
+	Cols      []string   `json:"cols"`
+	Table     [][]string `json:"table"`
+}
+
+func c05Client(s string) clients.Identifier {
+	if s == "vscode" {
+		return clients.IdentifierVSCode
 	}
-	type cs struct {
-		Root   string   `json:"root"`
-		URIs   []string `json:"uris"`
-		Ignore []string `json:"ignore"`
-		// observed
-		Ignored   []bool     `json:"ignored"`    // ignoreURI(uri)
-		Modules   []string   `json:"modules"`    // keys of getFilteredModules(), sorted
-		ModulesOK bool       `json:"modules_ok"` // ... returned no error
-		Direct    []string   `json:"direct"`     // config.FilterIgnoredPaths(paths, ignore, false, workspacePath())
-		DirectOK  bool       `json:"direct_ok"`
-		Cols      []string   `json:"cols"`
-		Table     [][]string `json:"table"`
+	return clients.IdentifierGeneric
+}
+
+// c05Table: gobwas/glob on every candidate expansion of every pattern x every name a matcher could be handed
+func (c *c05Case) c05Table() (msg string) {
+	defer func() {
+		if r := recover(); r != nil {
+			msg = fmt.Sprint(r)
+		}
+	}()
+	colSet := map[string]bool{}
+	addc := func(s string) {
+		if !colSet[s] {
+			colSet[s] = true
+			c.Cols = append(c.Cols, s)
+		}
 	}
-	var cases []cs
-	bs, err := os.ReadFile(inPath)
-	if err != nil {
-		t.Fatal(err)
+	rootRaw := strings.TrimPrefix(c.Root, "file://")
+	for j, u := range c.URIs {
+		if j < len(c.Rels) && c.Rels[j] != "" {
+			addc(c.Rels[j])
+		}
+		for _, pair := range [][2]string{{u, c.Root}, {c.Paths[j], c.RootPath}, {strings.TrimPrefix(u, "file://"), rootRaw}} {
+			addc(pair[0])
+			addc(strings.TrimPrefix(pair[0], "/"))
+			for _, pre := range []string{pair[1], pair[1] + "/", strings.TrimSuffix(pair[1], "/")} {
+				if pre != "" {
+					addc(strings.TrimPrefix(pair[0], pre))
+				}
+			}
+		}
 	}
-	if err := json.Unmarshal(bs, &cases); err != nil {
-		t.Fatal(err)
+	patSet := map[string]bool{}
+	for _, p := range append(append([]string{}, c.Ignore...), c.RuleIgnore...) {
+		if patSet[p] {
+			continue
+		}
+		patSet[p] = true
+		for _, e := range c05Closure(p) {
+			row := []string{e}
+			g, err := glob.Compile(e, '/')
+			if err != nil {
+				row = append(row, "bad")
+			} else {
+				row = append(row, "ok")
+				for _, col := range c.Cols {
+					msg = e + " on " + col
+					if g.Match(col) {
+						row = append(row, col)
+					}
+				}
+			}
+			c.Table = append(c.Table, row)
+		}
 	}
-	for i := range cases {
-		c := &cases[i]
-		ls := NewLanguageServer(context.Background(), &LanguageServerOptions{})
-		ls.workspaceRootURI = c.Root
-		ls.clientIdentifier = clients.IdentifierGeneric
-		ls.loadedConfig = &config.Config{Ignore: config.Ignore{Files: c.Ignore}}
-		var paths []string
+	return ""
+}
+
+func c05RelKept(rels []string, ignore []string) []int {
+	res := make([]int, len(rels))
+	for i, r := range rels {
+		switch kept, err := config.FilterIgnoredPaths([]string{r}, ignore, false, ""); {
+		case r == "":
+			res[i] = -2
+		case err != nil:
+			res[i] = -1
+		case len(kept) == 1:
+			res[i] = 1
+		}
+	}
+	return res
+}
+
+const c05Policy = "package p\n\ncamelCase := 1\n"
+
+func (c *c05Case) config() *config.Config {
+	conf := &config.Config{Ignore: config.Ignore{Files: c.Ignore}}
+	if len(c.RuleIgnore) > 0 {
+		conf.Rules = map[string]config.Category{"style": {"prefer-snake-case": config.Rule{
+			Level: "error", Ignore: &config.Ignore{Files: c.RuleIgnore},
+		}}}
+	}
+	return conf
+}
+
+func (c *c05Case) observeCache(ctx context.Context, ls *LanguageServer) error {
+	if err := updateAllDiagnostics(ctx, ls.cache, ls.getLoadedConfig(), ls.workspaceRootURI, false, false, nil); err != nil {
+		return err
+	}
+	for _, u := range c.URIs {
+		_, inFiles := ls.cache.GetFileContents(u)
+		_, inIgn := ls.cache.GetIgnoredFileContents(u)
+		c.Ignored = append(c.Ignored, !inFiles)
+		c.InIgnored = append(c.InIgnored, inIgn)
+		codes := []string{}
+		if diags, ok := ls.cache.GetFileDiagnostics(u); ok {
+			for _, d := range diags {
+				codes = append(codes, d.Code)
+			}
+		}
+		sort.Strings(codes)
+		c.Diags = append(c.Diags, codes)
+	}
+	c.Loaded = []string{}
+	for u := range ls.cache.GetAllFiles() {
+		c.Loaded = append(c.Loaded, u)
+	}
+	sort.Strings(c.Loaded)
+	return nil
+}
+
+func (c *c05Case) run(work string, n int) {
+	ctx := context.Background()
+	ls := NewLanguageServer(ctx, &LanguageServerOptions{})
+	ls.clientIdentifier = c05Client(c.Client)
+	ls.loadedConfig = c.config()
+	var dir string
+	if c.Kind == "load" {
+		// the tree is materialised first; URIs and the root are what the server itself would derive from it
+		dir = filepath.Join(append([]string{work, fmt.Sprintf("l%d", n)}, c.RootDir...)...)
+		for _, f := range c.Files {
+			p := filepath.Join(dir, filepath.FromSlash(f))
+			if err := os.MkdirAll(filepath.Dir(p), 0o755); err != nil {
+				c.Err = err.Error()
+				return
+			}
+			if err := os.WriteFile(p, []byte(c05Policy), 0o644); err != nil {
+				c.Err = err.Error()
+				return
+			}
+		}
+		defer os.RemoveAll(filepath.Join(work, fmt.Sprintf("l%d", n)))
+	}
+	ls.workspaceRootURI = c.Root
+	c.RootPath = ls.workspacePath()
+	for _, u := range c.URIs {
+		c.Paths = append(c.Paths, uri.ToPath(ls.clientIdentifier, u))
+	}
+	if m := c.c05Table(); m != "" {
+		c.Panic = m
+		c.Cols, c.Table = nil, nil
+		return
+	}
+	c.RelKept = c05RelKept(c.Rels, c.Ignore)
+	c.RelRule = c05RelKept(c.Rels, c.RuleIgnore)
+	enc := make([]string, len(c.URIs))
+	for i, u := range c.URIs {
+		if strings.HasPrefix(u, c.Root+"/") {
+			enc[i] = strings.TrimPrefix(u, c.Root+"/")
+		}
+	}
+	c.EncKept = c05RelKept(enc, c.Ignore)
+	c.EncRule = c05RelKept(enc, c.RuleIgnore)
+	switch c.Kind {
+	case "site":
 		for _, u := range c.URIs {
 			c.Ignored = append(c.Ignored, ls.ignoreURI(u))
 			ls.cache.SetModule(u, &ast.Module{})
-			paths = append(paths, uri.ToPath(ls.clientIdentifier, u))
 		}
 		mods, err := ls.getFilteredModules()
 		c.ModulesOK = err == nil
@@ -89,56 +260,83 @@ func TestVerifC05(t *testing.T) {
 			c.Modules = append(c.Modules, k)
 		}
 		sort.Strings(c.Modules)
-		direct, err := config.FilterIgnoredPaths(paths, c.Ignore, false, ls.workspacePath())
+		direct, err := config.FilterIgnoredPaths(c.Paths, c.Ignore, false, ls.workspacePath())
 		c.DirectOK = err == nil
 		c.Direct = direct
 		if c.Direct == nil {
 			c.Direct = []string{}
 		}
-		// oracle table
-		colSet := map[string]bool{}
-		addc := func(s string) {
-			if !colSet[s] {
-				colSet[s] = true
-				c.Cols = append(c.Cols, s)
+	case "diag":
+		for _, u := range c.URIs {
+			if _, err := ls.handleTextDocumentDidOpen(types.TextDocumentDidOpenParams{
+				TextDocument: types.TextDocumentItem{URI: u, Text: c05Policy},
+			}); err != nil {
+				c.Err = "didOpen: " + err.Error()
+				return
 			}
 		}
-		rootPath := strings.TrimPrefix(c.Root, "file://")
-		for j, u := range c.URIs {
-			for _, pair := range [][2]string{{u, c.Root}, {paths[j], rootPath}} {
-				addc(pair[0])
-				addc(strings.TrimPrefix(pair[0], "/"))
-				for _, pre := range []string{pair[1], pair[1] + "/", strings.TrimSuffix(pair[1], "/")} {
-					if pre != "" {
-						addc(strings.TrimPrefix(pair[0], pre))
-					}
-				}
+		bis := rego.BuiltinsForCapabilities(ast.CapabilitiesForThisVersion())
+		for u := range ls.cache.GetAllFiles() {
+			if _, err := updateParse(ctx, ls.cache, ls.regoStore, u, bis, ast.RegoUndefined); err != nil {
+				c.Err = "parse: " + err.Error()
+				return
 			}
 		}
-		patSet := map[string]bool{}
-		for _, p := range c.Ignore {
-			if patSet[p] {
-				continue
-			}
-			patSet[p] = true
-			for _, e := range c05Closure(p) {
-				row := []string{e}
-				g, err := glob.Compile(e, '/')
-				if err != nil {
-					row = append(row, "bad")
-				} else {
-					row = append(row, "ok")
-					for _, col := range c.Cols {
-						if g.Match(col) {
-							row = append(row, col)
-						}
-					}
-				}
-				c.Table = append(c.Table, row)
+		if err := c.observeCache(ctx, ls); err != nil {
+			c.Err = "lint: " + err.Error()
+		}
+	case "load":
+		if _, err := ls.loadWorkspaceContents(ctx, false); err != nil {
+			c.Err = "load: " + err.Error()
+			return
+		}
+		if err := c.observeCache(ctx, ls); err != nil {
+			c.Err = "lint: " + err.Error()
+		}
+	}
+}
+
+func TestVerifC05(t *testing.T) {
+	inPath, outPath := os.Getenv("VERIF_C05_IN"), os.Getenv("VERIF_C05_OUT")
+	if inPath == "" {
+		t.Skip("no input")
+	}
+	var in struct {
+		Work  string    `json:"work"`
+		Cases []c05Case `json:"cases"`
+	}
+	bs, err := os.ReadFile(inPath)
+	if err != nil {
+		t.Fatal(err)
+	}
+	if err := json.Unmarshal(bs, &in); err != nil {
+		t.Fatal(err)
+	}
+	// the root URI of a "load" case is derived from the real directory, as the server's client would
+	for i := range in.Cases {
+		c := &in.Cases[i]
+		if c.Kind == "load" {
+			dir := filepath.Join(append([]string{in.Work, fmt.Sprintf("l%d", i)}, c.RootDir...)...)
+			c.Root = uri.FromPath(c05Client(c.Client), dir)
+			c.URIs = nil
+			for _, f := range c.Files {
+				c.URIs = append(c.URIs, uri.FromPath(c05Client(c.Client), filepath.Join(dir, filepath.FromSlash(f))))
 			}
 		}
 	}
-	out, _ := json.Marshal(cases)
+	var wg sync.WaitGroup
+	sem := make(chan struct{}, 8)
+	for i := range in.Cases {
+		wg.Add(1)
+		sem <- struct{}{}
+		go func(i int) {
+			defer wg.Done()
+			defer func() { <-sem }()
+			in.Cases[i].run(in.Work, i)
+		}(i)
+	}
+	wg.Wait()
+	out, _ := json.Marshal(in.Cases)
 	if err := os.WriteFile(outPath, out, 0o644); err != nil {
 		t.Fatal(err)
 	}
